@@ -86,9 +86,36 @@ def runJobSkip (skip : Name → Bool) (memo check : Bool) (j : Job V H C) (f : N
   let ch := o.changed.filter (fun n => !skip n)
   { o with raised := check && !ch.isEmpty, changed := ch }
 
+/-- The job as it arrives in a worker process: `Job.__setstate__(Job.__getstate__(job))` (`cf` and the batch
+    workers run a cloudpickled copy).  `__getstate__` copies `__dict__` (so `_checksum` travels) and replaces `task`
+    by `cp.dumps(task)` (so `task._hashes` travels inside it); `__setstate__` restores `task` by `cp.loads` and does
+    nothing else — `keepRefs = true`, the identity on the modelled attributes (tied to the source by
+    `C19_pickle_tie` over `Gen/PickleState.lean`).  `keepRefs = false` is a variant that drops the reference hashes
+    while the cached checksum stays, kept only as documentation (`C19_witness_drop_refs`). -/
+def pickleRT (keepRefs : Bool) (j : Job V H C) : Job V H C :=
+  if keepRefs then j else { j with task := { j.task with hashes := none } }
+
+/-- `Job.run` in a worker process -/
+def runJobWorker (keepRefs memo check : Bool) (j : Job V H C) (f : Name → V → V) : Outcome C :=
+  runJob hash combine memo check (pickleRT keepRefs j) f
+
+/-- the reference hashes the check will compare against, as they are right after the body (`none`: there are none;
+    the code would fail with a TypeError, a variant answering "no changes" passes silently) -/
+def refsAtCheck (memo : Bool) (j : Job V H C) (f : Name → V → V) : Option (List (Name × H)) :=
+  let r1 := j.getChecksum hash combine memo
+  let j2 : Job V H C := { r1.1 with task := { r1.1.task with inputs := mutate f r1.1.task.inputs } }
+  (j2.getChecksum hash combine memo).1.task.hashes
+
 /-- what `Submitter.__call__` does with the RuntimeError -/
 inductive Report | silent | raised | logged
 deriving DecidableEq, Repr
+
+/-- what `Submitter.__call__` does when the failing job is a NODE of the submitted workflow (or a state of a split
+    task, which the submitter wraps in a workflow): the workflow job fails and stores an errored result, so the error
+    is raised (`raise_errors`, the debug worker's default) or logged -/
+def reportNode (raiseErrors : Bool) (o : Outcome C) : Report :=
+  if !o.raised then .silent else if raiseErrors then .raised else .logged
+
 
 /-- `sameJobObject`: debug worker (the submitter's Job object ran, its checksum is memoised);
     otherwise (pool worker) the submitter's own Job object computes its checksum only now, from the values the
